@@ -213,7 +213,7 @@ func c03Check(sc *hpScenario, obs *hpObs, r *vrt.Result, report func(kind, detai
 				full = obs.Stuck[0]
 				// coarse root-cause class: phase + response-received flag + whether a retry had been set up
 				f := strings.Fields(full)
-				sig = f[0] + " " + f[1] + fmt.Sprintf(" retried=%v", obs.Attempts[rq.Token] > 1)
+				sig = f[0] + " " + f[1] + " " + f[2] + fmt.Sprintf(" retried=%v", obs.Attempts[rq.Token] > 1)
 			}
 			sig += fmt.Sprintf(" deviations=%d", r.Cost)
 			if false {
